@@ -28,6 +28,12 @@ pub fn family() -> Vec<(&'static str, J)> {
         ("Dangling", json!({"type":"record","name":"Dangling","fields":[{"name":"z","type":"Nowhere"}]})),
         ("F", json!({"type":"fixed","name":"F","size":4})),
         ("UsesF,n2.Y", json!({"type":"record","name":"UsesF","namespace":"n2","fields":[{"name":"f","type":".F"},{"name":"y","type":["null","Y"]}]})),
+        // a record that refers back to itself / to its referrer AFTER a field that refers to another input
+        ("Node->Payload,Node", json!({"type":"record","name":"Node","fields":[{"name":"payload","type":"Payload"},{"name":"next","type":["null","Node"]}]})),
+        ("Payload", json!({"type":"record","name":"Payload","fields":[{"name":"v","type":"int"}]})),
+        ("M->B,N", json!({"type":"record","name":"M","fields":[{"name":"b","type":"B"},{"name":"n","type":"N"}]})),
+        ("N->M", json!({"type":"record","name":"N","fields":[{"name":"m","type":["null","M"]}]})),
+        ("n4.W->B(bare)", json!({"type":"record","name":"W","namespace":"n4","fields":[{"name":"b","type":"B"}]})),
         ("n3.T->.B", json!({"type":"record","name":"T","namespace":"n3","fields":[{"name":"b","type":".B"},{"name":"own","type":{"type":"fixed","name":"Own","size":1}}]})),
     ]
 }
@@ -81,18 +87,26 @@ pub fn should_succeed(set: &[&J]) -> Result<(), String> {
             _ => {}
         }
     }
-    fn refs(j: &J, ns: Option<&str>, all: &BTreeSet<String>) -> Result<(), String> {
+    fn refs(j: &J, ns: Option<&str>, all: &BTreeSet<String>, grey: &mut bool) -> Result<(), String> {
         match j {
             J::String(s) => {
                 if primitive(s).is_none() {
                     let full = if s.contains('.') { s.trim_start_matches('.').to_string() } else { join(&ns.map(|x| x.to_string()), s) };
                     if !all.contains(&full) {
+                        // an unqualified name inside a namespace that exists only in the null namespace: the
+                        // specification resolves it in the enclosing namespace only, the Java implementation
+                        // falls back to the null namespace - either answer is accepted, but it must not
+                        // depend on the order
+                        if !s.contains('.') && ns.is_some() && all.contains(s.as_str()) {
+                            *grey = true;
+                            return Ok(());
+                        }
                         return Err(format!("reference {s} ({full}) is not defined in the set"));
                     }
                 }
                 Ok(())
             }
-            J::Array(a) => a.iter().try_for_each(|x| refs(x, ns, all)),
+            J::Array(a) => a.iter().try_for_each(|x| refs(x, ns, all, grey)),
             J::Object(o) => {
                 let ty = o.get("type");
                 match ty.and_then(|t| t.as_str()) {
@@ -101,17 +115,17 @@ pub fn should_succeed(set: &[&J]) -> Result<(), String> {
                         let (n2, _) = full_name(name, o.get("namespace").and_then(|n| n.as_str()), ns);
                         for f in o.get("fields").and_then(|f| f.as_array()).cloned().unwrap_or_default() {
                             if let Some(t) = f.get("type") {
-                                refs(t, n2.as_deref(), all)?;
+                                refs(t, n2.as_deref(), all, grey)?;
                             }
                         }
                         Ok(())
                     }
                     Some("enum" | "fixed") => Ok(()),
-                    Some("array") => refs(o.get("items").unwrap_or(&J::Null), ns, all),
-                    Some("map") => refs(o.get("values").unwrap_or(&J::Null), ns, all),
-                    Some(other) => refs(&J::String(other.to_string()), ns, all),
+                    Some("array") => refs(o.get("items").unwrap_or(&J::Null), ns, all, grey),
+                    Some("map") => refs(o.get("values").unwrap_or(&J::Null), ns, all, grey),
+                    Some(other) => refs(&J::String(other.to_string()), ns, all, grey),
                     None => match ty {
-                        Some(t) => refs(t, ns, all),
+                        Some(t) => refs(t, ns, all, grey),
                         None => Err("no type".into()),
                     },
                 }
@@ -129,8 +143,12 @@ pub fn should_succeed(set: &[&J]) -> Result<(), String> {
             return Err(format!("full name {d} is defined twice"));
         }
     }
+    let mut grey = false;
     for j in set {
-        refs(j, None, &seen)?;
+        refs(j, None, &seen, &mut grey)?;
+    }
+    if grey {
+        return Err("GREY: an unqualified reference resolves only through the null namespace".into());
     }
     Ok(())
 }
@@ -288,6 +306,7 @@ fn deviation(set: &[&J], clause: &str) -> Option<&'static str> {
 fn check_set(label: &str, set: Vec<J>, perms: Vec<Vec<usize>>, bound: usize, ord: u64, st: &mut Stats) {
     let refs: Vec<&J> = set.iter().collect();
     let expect_ok = should_succeed(&refs);
+    let grey = matches!(&expect_ok, Err(e) if e.starts_with("GREY"));
     // per input text: the JSON it must come back as (first successful observation)
     let mut canon: BTreeMap<String, String> = BTreeMap::new();
     let mut first_script: Option<String> = None;
@@ -306,10 +325,11 @@ fn check_set(label: &str, set: Vec<J>, perms: Vec<Vec<usize>>, bound: usize, ord
                     if expect_ok.is_ok() {
                         problems.push(("resolvable-set-rejected".into(), format!("{tag}: {e}")));
                     }
+                    let _ = grey;
                 }
                 Outcome::Ok(schemas) => {
                     distinct.insert("Ok".into());
-                    if let Err(why) = &expect_ok {
+                    if let (Err(why), false) = (&expect_ok, grey) {
                         problems.push(("unresolvable-or-conflicting-set-accepted".into(), format!("{tag}: reference predicate says: {why}")));
                         return;
                     }
